@@ -165,7 +165,7 @@ def judge(ctx, mon, g, pkeys, case, inp, o, key, tree_limit):
     f = o.forest
     ctx.count("forests")
     dups = mon.duplicates(f.result)
-    dup_known = findings.duplicate_packing_known(dups)
+    dup_known = findings.duplicate_packing_known(dups, mon)
     if o.loop:
         ctx.case(key, True, sample={"grammar": case["grammar"], "input": inp, "len": "LoopError"})
         ctx.count("loop.raised")
